@@ -483,6 +483,13 @@ def main(root, argv):
                 suites_stats.append(st)
                 if "error" in st:
                     corr_errors.append(st["error"])
+                    # the counting allocator of the codec harness stops the run at a request it
+                    # cannot serve and names the case: that input violates C11 on the implementation
+                    mb = re.search(r"ALLOC-BOMB size=(\d+) case=(\d+) ([0-9,;]*)", st["error"])
+                    if mb:
+                        oracle_fail.append({"property": "C11", "f": int(mb.group(2)), "args": mb.group(3), "out": "ALLOC-BOMB",
+                                            "what": "decoding this input requested %s bytes from the allocator in one piece" % mb.group(1),
+                                            "suite": suite, "build": build})
                     continue
                 files = sorted(glob.glob(os.path.join(st["dir"], suite + "_*.v")))
                 res, errs = eval_shards(root, files)
